@@ -8,7 +8,7 @@
    EVAL <pkt> <plan..>                     -> nat=V nft=V tproxy=V pff=V pfo=V spec=b ns=b ns32=b f18=b own=b wf=b marked=b tdiv=b
    WALKR nat|tproxy <pkt> <tmarkvalhex> <C:table:op:chain:item,item..>...     -> V   (rules parsed from real argv)
    WALKR nft <pkt> - <cmd>... / <cmd>...   (v6 table / v4 table)              -> V
-   WALKR pff|pfo <pkt> - <line>...                                            -> V
+   WALKR pff|pfo <pkt> -|H<enabled><rdr-anchor called><anchor called> <line>...  -> V
    PRINTR nat|tproxy|nft <4|6> <port> <cmd>...   -> as GEN (round trip of the harness' argv parser)
    PRINTR pff|pfo <line>...                      -> hex text *)
 let n_of_hex (h : string) : n =
@@ -168,8 +168,15 @@ let handle = function
        | "nft" -> let (t6, t4) = split_at "/" rest in
            let c6 = List.map parse_nft_cmd t6 and c4 = List.map parse_nft_cmd t4 in
            fun p -> nft_verdict_of c6 c4 p
-       | "pff" -> let c = List.map parse_pf_line rest in fun p -> pf_verdict_of FreeBsd c p
-       | "pfo" -> let c = List.map parse_pf_line rest in fun p -> pf_verdict_of OpenBsd c p
+       | "pff" | "pfo" ->
+           (* 4th field "-": the anchor's rules alone; "H<e><r><p>" (0/1 each): the complete state — pf enabled,
+              main ruleset calls rdr-anchor / anchor for this anchor (Model/FwPfHook.v pf_state_verdict_of) *)
+           let os = if m = "pff" then FreeBsd else OpenBsd in
+           let c = List.map parse_pf_line rest in
+           if String.length tm = 4 && tm.[0] = 'H' then
+             let h = { h_enabled = (tm.[1] = '1'); h_rdr = (tm.[2] = '1'); h_pass = (tm.[3] = '1') } in
+             fun p -> pf_state_verdict_of os h c p
+           else fun p -> pf_verdict_of os c p
        | _ -> failwith "method") in
       String.concat " " (List.map (fun pk -> verdict_s (f (parse_pkt pk))) (comma pks))
   | "PRINTR" :: "pff" :: rest | "PRINTR" :: "pfo" :: rest ->
